@@ -20,6 +20,7 @@ def parseOp (C : Nat) : List String → Option (Op × List String)
   | "fill" :: v :: rest => some (.fill (parseNat! v), rest)
   | "cell" :: i :: j :: v :: rest => some (.setCell (parseNat! i) (parseNat! j) (parseNat! v), rest)
   | "itermut" :: v :: rest => some (.iterMutSet (parseNat! v), rest)
+  | "itermutrev" :: v :: rest => some (.iterMutRevSet (parseNat! v), rest)
   | "clone" :: rest => some (.clone, rest)
   | "row" :: i :: n :: rest =>
     let (vals, rest') := takeNats rest (parseNat! n)
